@@ -288,7 +288,7 @@ class OperatorRun:
             hyps = list(hyps) + hints
         if z3.is_expr(goal) and is_true(simplify(goal)):
             # still counts as an obligation (discharged by simplification)
-            ob = Obligation(name, [], BoolVal(True), kind, name, path=path); ob.result = 'proved'; ob.backend = 'simplify'
+            ob = Obligation(name, list(eng.base_hyps) + list(hyps), BoolVal(True), kind, name, path=path); ob.result = 'proved'; ob.backend = 'simplify'
             self.report.obligations.append(ob); return
         ob = Obligation(name, list(eng.base_hyps) + list(hyps), goal, kind, name, path=path)
         ob.extra['lemmas'] = opts.get('lemmas')
